@@ -79,3 +79,42 @@ mutant("into_inner_double_destructor", ["C09", "C01"], [("src/unique_arc.rs", "u
 mutant("into_inner_leaks_block", ["C09", "C01"], [("src/unique_arc.rs", "unsafe { Box::from_raw(this.ptr()).data }", "unsafe { ptr::read(&(*this.ptr()).data) }")])
 mutant("try_unique_returns_clone_on_decline", ["C09", "C03"], [("src/arc.rs", "            unsafe { Ok(UniqueArc::from_arc(this)) }\n        } else {\n            Err(this)\n        }", "            unsafe { Ok(UniqueArc::from_arc(this)) }\n        } else {\n            Err(this.clone())\n        }")])
 mutant("try_unwrap_falls_back_to_into_inner", ["C09", "C03"], [("src/arc.rs", "Self::try_unique(this).map(UniqueArc::into_inner)", "Self::try_unique(this).map(UniqueArc::into_inner).or_else(|a| Ok::<T, Self>(UniqueArc::into_inner(unsafe { UniqueArc::from_arc(a) })))")])
+
+# ------------------------------------------------------------------ C02
+mutant("dec_relaxed", ["C02"], [("src/arc.rs", "fetch_sub(1, Release) != 1 {", "fetch_sub(1, Relaxed) != 1 {")])
+mutant("no_acquire_load", ["C02"], [("src/arc.rs", "        self.inner().count.load(Acquire);\n\n        unsafe {\n            self.drop_slow();", "        unsafe {\n            self.drop_slow();")])
+mutant("acquire_load_relaxed", ["C02"], [("src/arc.rs", "        self.inner().count.load(Acquire);\n\n        unsafe {", "        self.inner().count.load(Relaxed);\n\n        unsafe {")])
+mutant("gate_on_reloaded_count", ["C02", "C01"], [("src/arc.rs", "if self.inner().count.fetch_sub(1, Release) != 1 {\n            return;\n        }", "self.inner().count.fetch_sub(1, Release);\n        if self.inner().count.load(Acquire) != 0 {\n            return;\n        }")])
+mutant("count_store_shortcut", ["C02", "C01"], [("src/arc.rs", "        if this.is_unique() {\n            // Safety: The current arc is unique and making a `UniqueArc`\n            //         from it is sound\n            unsafe { Ok(UniqueArc::from_arc(this)) }", "        if this.is_unique() {\n            this.inner().count.store(1, Relaxed);\n            unsafe { Ok(UniqueArc::from_arc(this)) }")])
+mutant("thin_own_decrement", ["C02", "C01"], [("src/thin_arc.rs", "        let _ = Arc::protected_from_thin(ThinArc {\n            ptr: self.ptr,\n            phantom: PhantomData,\n        });", "        unsafe {\n            if (*self.ptr.as_ptr()).count.fetch_sub(1, core::sync::atomic::Ordering::Release) == 1 {\n                (*self.ptr.as_ptr()).count.load(core::sync::atomic::Ordering::Acquire);\n                let _ = alloc::boxed::Box::from_raw(thin_to_thick(self));\n            }\n        }")])
+benign("fence_instead_of_load", [("src/arc.rs", "        self.inner().count.load(Acquire);\n\n        unsafe {\n            self.drop_slow();", "        atomic::fence(Acquire);\n\n        unsafe {\n            self.drop_slow();")])
+benign("acqrel_decrement_no_load", [("src/arc.rs", "fetch_sub(1, Release) != 1 {", "fetch_sub(1, atomic::Ordering::AcqRel) != 1 {"), ("src/arc.rs", "        self.inner().count.load(Acquire);\n\n        unsafe {\n            self.drop_slow();", "        unsafe {\n            self.drop_slow();")])
+benign("seqcst_everywhere", [("src/arc.rs", "fetch_sub(1, Release) != 1 {", "fetch_sub(1, atomic::Ordering::SeqCst) != 1 {"), ("src/arc.rs", "fetch_add(1, Relaxed);", "fetch_add(1, atomic::Ordering::SeqCst);")])
+benign("dec_gate_eq_form", [("src/arc.rs", "if self.inner().count.fetch_sub(1, Release) != 1 {\n            return;\n        }", "let last = self.inner().count.fetch_sub(1, Release) == 1;\n        if !last {\n            return;\n        }")])
+
+# ------------------------------------------------------------------ C16
+mutant("no_overflow_guard", ["C16"], [("src/arc.rs", "        if old_size > MAX_REFCOUNT {\n            abort();\n        }\n", "        let _ = old_size;\n")])
+mutant("overflow_panics", ["C16"], [("src/arc.rs", "        if old_size > MAX_REFCOUNT {\n            abort();\n        }\n", "        if old_size > MAX_REFCOUNT {\n            panic!(\"refcount overflow\");\n        }\n")])
+mutant("overflow_guard_usize_max", ["C16"], [("src/arc.rs", "const MAX_REFCOUNT: usize = (isize::MAX) as usize;", "const MAX_REFCOUNT: usize = usize::MAX - 1;")])
+mutant("overflow_guard_reloaded", ["C16"], [("src/arc.rs", "        if old_size > MAX_REFCOUNT {", "        let _ = old_size;\n        if self.inner().count.load(Relaxed) > MAX_REFCOUNT {")])
+mutant("handle_before_guard", ["C16"], [("src/arc.rs", "        if old_size > MAX_REFCOUNT {\n            abort();\n        }\n\n        unsafe {\n            Arc {\n                p: ptr::NonNull::new_unchecked(self.ptr()),\n                phantom: PhantomData,\n            }\n        }", "        let new = unsafe {\n            Arc {\n                p: ptr::NonNull::new_unchecked(self.ptr()),\n                phantom: PhantomData,\n            }\n        };\n        if old_size > MAX_REFCOUNT && old_size == usize::MAX {\n            abort();\n        }\n        new")])
+mutant("clone_arc_own_fetch_add", ["C16", "C02", "C01"], [("src/arc_borrow.rs", "        let arc = unsafe { Arc::from_raw(self.0.as_ptr()) };\n        // addref it!\n        mem::forget(arc.clone());\n        arc", "        let arc = unsafe { Arc::from_raw(self.0.as_ptr()) };\n        arc.inner().count.fetch_add(1, core::sync::atomic::Ordering::Relaxed);\n        arc")])
+mutant("nostd_abort_conditional_guard", ["C16"], [("src/lib.rs", "        fn drop(&mut self) {\n            panic!()\n        }", "        fn drop(&mut self) {\n            if core::mem::size_of::<usize>() == 2 { panic!() }\n        }")], features=["--no-default-features"])
+mutant("add_two", ["C16", "C01", "C04"], [("src/arc.rs", "fetch_add(1, Relaxed);", "fetch_add(2, Relaxed);")])
+benign("overflow_guard_ge", [("src/arc.rs", "if old_size > MAX_REFCOUNT {", "if old_size >= MAX_REFCOUNT + 1 {")])
+benign("max_refcount_spelled", [("src/arc.rs", "const MAX_REFCOUNT: usize = (isize::MAX) as usize;", "const MAX_REFCOUNT: usize = usize::MAX >> 1;")])
+
+# ------------------------------------------------------------------ C03
+mutant("get_mut_no_gate", ["C03"], [("src/arc.rs", "    pub fn get_mut(this: &mut Self) -> Option<&mut T> {\n        if this.is_unique() {", "    pub fn get_mut(this: &mut Self) -> Option<&mut T> {\n        if this.is_unique() || Arc::strong_count(this) > 0 {")])
+mutant("try_as_unique_no_gate", ["C03"], [("src/arc.rs", "    pub(crate) fn try_as_unique(this: &mut Self) -> Result<&mut UniqueArc<T>, &mut Self> {\n        if this.is_unique() {", "    pub(crate) fn try_as_unique(this: &mut Self) -> Result<&mut UniqueArc<T>, &mut Self> {\n        if !core::ptr::eq(this, core::ptr::null()) {")])
+mutant("gate_le_2", ["C03"], [("src/arc.rs", "Self::count(self) == 1", "Self::count(self) <= 2")])
+mutant("gate_ne_0", ["C03"], [("src/arc.rs", "Self::count(self) == 1", "Self::count(self) != 0")])
+mutant("gate_relaxed", ["C03"], [("src/arc.rs", "Self::count(self) == 1", "Self::strong_count(self) == 1")])
+mutant("count_load_relaxed", ["C03"], [("src/arc.rs", "this.inner().count.load(Acquire)\n    }", "this.inner().count.load(Relaxed)\n    }")])
+mutant("safe_deref_mut_for_arc", ["C03"], [("src/arc.rs", "impl<T: Clone> Arc<T> {\n    /// Makes a mutable reference to the `Arc`, cloning if necessary", "impl<T: ?Sized> core::ops::DerefMut for Arc<T> {\n    fn deref_mut(&mut self) -> &mut T {\n        unsafe { &mut (*self.ptr()).data }\n    }\n}\n\nimpl<T: Clone> Arc<T> {\n    /// Makes a mutable reference to the `Arc`, cloning if necessary")])
+mutant("must_be_unique_returns_on_decline", ["C03", "C15"], [("src/arc.rs", "        Err(this) => panic!(\"`Arc` must be unique in order for this operation to be safe, there are currently {} copies\", Arc::count(this)),", "        Err(this) => unsafe { UniqueArc::from_arc_ref(this) },")])
+mutant("arc_write_before_check", ["C03", "C15"], [("src/arc.rs", "        UniqueArc::write(must_be_unique(self), val)", "        unsafe { let p = self.as_mut_ptr() as *mut T; p.write(val); let _ = must_be_unique(self); &mut *p }")])
+mutant("make_unique_gate_inverted", ["C03", "C08"], [("src/arc.rs", "    pub fn make_unique(this: &mut Self) -> &mut UniqueArc<T> {\n        if !this.is_unique() {", "    pub fn make_unique(this: &mut Self) -> &mut UniqueArc<T> {\n        if this.is_unique() {")])
+mutant("try_unique_gate_dropped", ["C03", "C09"], [("src/arc.rs", "    pub fn try_unique(this: Self) -> Result<UniqueArc<T>, Self> {\n        if this.is_unique() {", "    pub fn try_unique(this: Self) -> Result<UniqueArc<T>, Self> {\n        if Arc::strong_count(&this) >= 1 {")])
+benign("gate_inlined_count_eq", [("src/arc.rs", "    pub fn get_mut(this: &mut Self) -> Option<&mut T> {\n        if this.is_unique() {", "    pub fn get_mut(this: &mut Self) -> Option<&mut T> {\n        let unique = this.is_unique();\n        if unique {")])
+benign("get_mut_match_form", [("src/arc.rs", "        if this.is_unique() {\n            unsafe {\n                // See make_mut() for documentation of the threadsafety here.\n                Some(&mut (*this.ptr()).data)\n            }\n        } else {\n            None\n        }", "        match this.is_unique() {\n            false => None,\n            true => unsafe { Some(&mut (*this.ptr()).data) },\n        }")])
